@@ -315,6 +315,17 @@ func (e *c02Env) checkValue(m convAll, src *c02Src) {
 		} else if berr != nil || b != want {
 			e.viol(src, "ToBool", "tobool", fmt.Sprintf("returned (%v, %v), want (%v, nil)", b, berr, want))
 		}
+	} else if src.typ == "string" && src.rat != nil {
+		// a numeric string: an error is fine, but an answer must be the number's truth value (value != 0)
+		e.c.Eval(1)
+		var b bool
+		var berr error
+		pv, where := core.Catch(func() { b, berr = m.ToBool() })
+		if pv != nil {
+			e.viol(src, "ToBool", "panic", fmt.Sprintf("panics: %v at %s", pv, where))
+		} else if berr == nil && b != (src.rat.Sign() != 0) {
+			e.viol(src, "ToBool", "tobool", fmt.Sprintf("returned (%v, nil) for a string that denotes the number %s (value != 0 is %v)", b, src.rat.FloatString(3), src.rat.Sign() != 0))
+		}
 	}
 }
 
@@ -676,7 +687,7 @@ func runC02(c *core.Ctx) {
 	for _, s := range []string{"", " 1", "1 ", "+1", "+200", "1e3", "1E3", "0x10", "1.5", "-1.5", "2.5", "0.5", "-0.5", "-0", "00012", "1_000", "NaN", "Inf", "-Inf", "1e400", "-1e400", "1e39",
 		"340282356779733661637539395458142568448", "18446744073709551616", "99999999999999999999999999999999999999999", "-99999999999999999999999999999999999999999",
 		"4\xff2", "-1\xf0\x9f\x9800", "1\x002", "\xff", "12\xff", "\xff12", "\u0967\u0968", "\uff11\uff12", "12\u200b", "1\u00a02", "4\xc3\x282", "\xed\xa0\x8012",
-		"abc", "1.0", "255.0", "256", "-1", "65535", "65536", "4294967295", "4294967296", "3000000000", "200", "128", "127", "-128", "-129", "0.1", "1e-400", "true", "false"} {
+		"1e-400", "-1e-400", "2.4e-324", "4.9e-324", "1e-320", "0.0", "0e10", "0.000000000000000000000000000001", "2", "10", "-3", "abc", "1.0", "255.0", "256", "-1", "65535", "65536", "4294967295", "4294967296", "3000000000", "200", "128", "127", "-128", "-129", "0.1", "1e-400", "true", "false"} {
 		addS(s)
 	}
 	parallelFor(len(strs), func(w, i int) {
